@@ -96,6 +96,21 @@ class C13:
                 priors[k] = {'ctor': 'gaussian', 'args': {
                     'mu': g, 'sd': round(w / 2, 6), 'name': k}}
 
+        # a mis-specified prior: the generating value of one parameter lies
+        # just outside the prior's support.  The fit cannot recover it, but
+        # it still has to stay inside the bounds and must not end up worse
+        # than it started.
+        excluded = None
+        cand = [k for k in free if k in ('r', 'z', 'alpha', 'n')
+                and priors[k]['ctor'] == 'uniform']
+        if start != 'truth' and cand and rng.random() < 0.15:
+            excluded = rng.choice(cand)
+            t = truth[excluded]
+            a_ = priors[excluded]['args']
+            a_['lo'] = round(t * 1.004, 6)
+            a_['guess'] = guesses[excluded] = round(t * 1.012, 6)
+            a_['hi'] = round(max(a_['hi'], t * 1.05), 6)
+
         def v(k):
             return priors[k] if k in priors else truth[k]
         sc_args = {'n': v('n'), 'r': v('r'),
@@ -244,6 +259,7 @@ class C13:
         return {'config': {'faults': faults, 'truth': truth, 'free': free,
                            'guesses': guesses, 'priors': priors,
                            'start': start, 'full': full, 'lens': lens,
+                           'excluded': excluded,
                            'node': {'epoch': 1.6e9 + rng.randrange(10 ** 6),
                                     'tick': rfloat(rng, 0.001, 30.0)}},
                 'events': b.events}
@@ -465,6 +481,8 @@ class C13:
                     'the starting guess %.6g' % (mh, mg),
                     sig='C13.monotone:' + fev['tags']['k']))
                 return
+        if cfg.get('excluded'):
+            return      # the generating parameters are out of reach
         truth = cfg['truth']
         worst = 0.0
         for k in cfg['free']:
